@@ -14,9 +14,12 @@ RULE = (
     "release times / runtimes (ties included), 1-3 strategies each, on 1-3 single-worker pools partially occupied by running "
     "tasks; one invocation of EDF/FIFO/LSF; for every task left unplaced an independent fit check (initial occupancy + placed "
     "tasks of higher-or-equal priority) must find no strategy x pool that fits. Non-trivial = >= 3 tasks with >= 1 unplaced and "
-    ">= 1 placed; distinct by case hash."
+    ">= 1 placed; distinct by case hash. greedy_multiworker: the same inputs on 1-2 pools of 1-3 workers; a greedy Placement names the pool "
+    "only, so an unplaced task is an inversion only if it fits a worker under EVERY assignment of the higher-or-equal priority placements "
+    "of some pool to that pool's workers (exhaustive assignment search); non-trivial = a pool with >= 2 workers, >= 1 placed, >= 1 unplaced."
 )
-ASSUMPTIONS = ["single-worker pools, so first-fit inside a pool is unambiguous (as the property's observation point prescribes)", "tie order is not asserted"]
+ASSUMPTIONS = ["greedy_invocation: single-worker pools, so first-fit inside a pool is unambiguous (as the property's observation point prescribes)", "tie order is not asserted",
+               "greedy_multiworker: sound for any within-pool placement rule, not complete; cases whose assignment search exceeds 60 000 nodes are discarded"]
 
 
 def case_strategy(tier, single=True):
